@@ -236,7 +236,10 @@ func v12Aspects() []v12Aspect {
 			return []ndp.Option{v12SL(v12S(10), v12N1), v12SL(v12S(10), v12N2), v12SL(0, v12N3)}
 		},
 	}
-	captive := [][]string{nil, {v12U1}, {v12U2}, {v12U1, v12U2}, {v12U2, v12U1}}
+	// also URIs that differ only in ways a URL normaliser removes (scheme case, an empty fragment): the option carries a
+	// string, and strings that differ are inconsistent
+	u3, u4 := "HTTPS"+v12U1[len("https"):], v12U1+"#"
+	captive := [][]string{nil, {v12U1}, {v12U2}, {v12U1, v12U2}, {v12U2, v12U1}, {u3}, {u4}}
 	return []v12Aspect{
 		{name: "hop_limit", n: len(hops), set: func(ra *ndp.RouterAdvertisement, i int) { ra.CurrentHopLimit = hops[i] }},
 		{name: "managed", n: 2, set: func(ra *ndp.RouterAdvertisement, i int) { ra.ManagedConfiguration = i == 1 }},
